@@ -346,7 +346,87 @@ def _h_sync(world: World) -> None:
         peer.dispose()
 
 
+def _h_cancelled_writer(world: World) -> None:
+    """A writer task is cancelled while it WAITS for the transport's send lock behind another, back-pressured writer.
+    The cancelled write may reach the peer wholly or not at all; everything the other writers wrote (before and after)
+    must still arrive intact and in order, and the TLS stream must stay valid (found missing by a seeded change)."""
+    seed16 = world.choose("markerseed", 1 << 16)
+    version = world.pick("version", ["1.3", "1.2"])
+    lib_server = bool(world.choose("lib_server", 2))
+    cap = world.pick("cap", [4096, 2048, 16384])
+    n1 = 300000 + world.choose("n1", 100000)  # beyond link capacity + the adapter's 256 KiB buffer is not needed: the peer is paused
+    n1 = world.pick("w1size", [40000, 90000, 20000])
+    n2 = world.pick("w2size", [17, 500, 20000])
+    n3 = world.pick("w3size", [17, 3000])
+    start2 = 2 + world.choose("start2", 6)  # /64 s after W1 started
+    cancel_at = start2 + 1 + world.choose("cancel_gap", 8)
+    resume_at = cancel_at + 1 + world.choose("resume_gap", 8)
+    iterable2 = world.choose("iter2", 3)
+    net = SimNet(world)
+    backend = SimAsyncIOBackend(net)
+    lib, psock = net.socketpair(capacity_ab=cap, capacity_ba=1 << 20)
+    world.fault("capacity_small")
+    peer = TLSPeer(world, psock, server_side=not lib_server, version=version)
+    P1, P2, P3 = _payload(seed16, "A", 0, n1), _payload(seed16, "A2", 0, n2), _payload(seed16, "A", 1, n3)
+    world.notes.update(version=version, lib_server=lib_server, cap=cap, sizes=[n1, n2, n3], start2=start2, cancel_at=cancel_at, resume_at=resume_at)
+    state: dict[str, Any] = {}
+
+    async def main() -> None:
+        tr = await backend.wrap_stream_socket(lib)
+        tls = await AsyncTLSStreamTransport.wrap(tr, make_context(lib_server, version), server_side=lib_server, server_hostname=None if lib_server else "sim.host", handshake_timeout=2000.0)
+        await asyncio.sleep(1 / 64)
+        peer.paused = True
+        world.fault("peer_stops_reading")
+        t0 = world.now
+
+        async def w1() -> None:
+            await tls.send_all(P1)
+            await tls.send_all(P3)
+
+        async def w2() -> None:
+            await asyncio.sleep(start2 / 64)
+            if iterable2:
+                await tls.send_all_from_iterable(_split(seed16, P2, iterable2))
+            else:
+                await tls.send_all(P2)
+
+        t1 = asyncio.get_running_loop().create_task(w1(), name="writer1")
+        t2 = asyncio.get_running_loop().create_task(w2(), name="writer2")
+        await asyncio.sleep(cancel_at / 64)
+        if t1.done():
+            raise Violation("harness/no-backpressure", "writer1 finished although the peer is not reading", key="C08/cancelled-writer/harness")
+        t2.cancel()
+        world.fault("cancel_at_time")
+        world.log("cancel", "writer2")
+        await asyncio.sleep((resume_at - cancel_at) / 64)
+        peer.resume()
+        await asyncio.wait([t1, t2], timeout=4000)
+        if not t1.done():
+            raise Deadlock("writer1 never finished")
+        state["w1_exc"] = t1.exception() if not t1.cancelled() else "cancelled"
+        while len(peer.plain_in) < len(P1) + len(P3) and (lib.tx_pipe.flight or lib.tx_pipe.rx) and world.now < 400000.0:  # type: ignore[union-attr]
+            await asyncio.sleep(1 / 64)
+        await asyncio.sleep(4 / 64)
+        with backend.move_on_after(5.0):
+            await tls.aclose()
+
+    try:
+        run_async(world, main)
+    except Deadlock:
+        raise Violation("deadlock", f"writer1 never finishes after the peer resumed reading; sizes={[n1, n2, n3]} cap={cap}", key="C08/cancelled-writer/deadlock") from None
+    if state.get("w1_exc") is not None:
+        raise Violation("writer-failed", f"the surviving writer failed with {state['w1_exc']!r} after another writer was cancelled while waiting for the send lock", key="C08/cancelled-writer/writer-failed")
+    if peer.engine.error is not None and not peer.engine.saw_close_notify:
+        raise Violation("tls-stream-corrupted", f"the reference peer could not decrypt the stream: {type(peer.engine.error).__name__}: {peer.engine.error}; it had read {len(peer.plain_in)} bytes; sizes={[n1, n2, n3]}", key="C08/cancelled-writer/tls-stream-corrupted")
+    got = peer.plain_in
+    ok = got in (P1 + P3, P1 + P2 + P3, P1 + P3 + P2)
+    if not ok:
+        raise Violation("plaintext-equal", f"peer read {len(got)} bytes; expected writer1's {n1}+{n3} bytes with writer2's cancelled {n2}-byte write wholly present or absent (first diff vs P1+P3 at {_first_diff(got, P1 + P3)})", key="C08/cancelled-writer/plaintext-equal")
+    world.progress(2)
+
+
 HARNESSES = [
+    Harness("aio-cancelled-writer", _h_cancelled_writer, weight=1, wall_limit=180.0),
     Harness("aio-duplex", _h_aio, weight=3, wall_limit=180.0),
     Harness("sync-sequential", _h_sync, weight=1, wall_limit=180.0),
 ]
